@@ -60,6 +60,7 @@ type KnownFinding struct {
 }
 
 var verifRoot = "/verif"
+var outBase string
 
 func main() {
 	if len(os.Args) < 2 {
@@ -240,10 +241,15 @@ func cmdCheck(args []string) int {
 	if *tier == "thorough" {
 		timeout = 120
 	}
-	outDir := filepath.Join(verifRoot, "out", "vc", *prop)
+	outRoot := filepath.Join(verifRoot, "out")
+	if v := os.Getenv("VERIF_OUT"); v != "" {
+		outRoot = v // scratch output directory (selftests running in parallel)
+	}
+	outBase = outRoot
+	outDir := filepath.Join(outRoot, "vc", *prop)
 	os.RemoveAll(outDir)
 	if *only == "" {
-		os.RemoveAll(filepath.Join(verifRoot, "out", "replay", *prop))
+		os.RemoveAll(filepath.Join(outRoot, "replay", *prop))
 	}
 	ts := time.Now()
 	var wg sync.WaitGroup
@@ -578,7 +584,11 @@ func truncate(s string, n int) string {
 }
 
 func writeReplay(prop, name string, info map[string]any) string {
-	dir := filepath.Join(verifRoot, "out", "replay", prop)
+	base := outBase
+	if base == "" {
+		base = filepath.Join(verifRoot, "out")
+	}
+	dir := filepath.Join(base, "replay", prop)
 	os.MkdirAll(dir, 0o755)
 	p := filepath.Join(dir, sanitizeFile(name)+".json")
 	data, _ := json.MarshalIndent(info, "", " ")
